@@ -9,6 +9,7 @@ ENG = {
     "hhfuzz": {"name": "hhfuzz", "sources": ["hhfuzz.c"]},
     "poolfuzz": {"name": "poolfuzz", "sources": ["poolfuzz.c"]},
     "rngdet": {"name": "rngdet", "sources": ["rngdet.c"]},
+    "rngbulk": {"name": "rngbulk", "sources": ["rngbulk.c"], "extra_cflags": "-O2"},
     "rngsamp": {"name": "rngsamp", "sources": ["rngsamp.c"]},
     "simfuzz": {"name": "simfuzz", "sources": ["simfuzz.c"], "extra_cflags": "-Wno-format-truncation"},
     "expcheck": {"name": "expcheck", "sources": ["expcheck.c"]},
@@ -70,7 +71,7 @@ PROPS["C19"] = {
              "scrambled, tag pools grown); after cimba_run_experiment returns: execution count == 1 and own-element tag for every trial, "
              "no foreign pointer, and every result byte (trace hash, event count, 4 doubles) equal to the sequential run of the same "
              "trials in the main thread (run before or after); distinct = fingerprint of (count, size, mix, trial->worker assignment)"),
-    "headline": ["experiments", "trials", "simulated_process_steps", "experiments_on_multiple_workers", "max_workers_used",
+    "headline": ["experiments", "trials", "simulated_process_steps", "experiments_on_multiple_workers", "trials_started_on_the_previous_trials_parameter_caches", "max_workers_used",
                  "max_trials_on_one_worker", "experiments_fewer_trials_than_cores", "experiments_trials_equal_cores", "experiments_more_trials_than_cores"],
     "min_observed": {"quick": {"experiments": 40, "trials": 1000, "experiments_on_multiple_workers": 20}},
     "assumptions": ["trial functions seed the generator from their own parameters (as the property states)",
@@ -92,7 +93,7 @@ PROPS["C20"] = {
              "the library's thread-local static tag pools in the main thread and in short-lived threads; shadow map of live objects "
              "with per-object fill patterns audited on free and at audit points (alignment, overlap, inside-a-chunk, contents); "
              "distinct = fingerprint of (profile, geometry, chunk target, ramp size); non-trivial = more than one chunk"),
-    "headline": ["allocs", "frees", "audits", "expansions", "max_chunks", "max_live", "chunk_list_growths", "cases_crossing_64_chunks",
+    "headline": ["allocs", "frees", "audits", "expansions", "max_chunks", "max_live", "chunk_list_growths", "cases_crossing_64_chunks", "pools_reinitialised", "pools_terminated_with_objects_out",
                  "static_pool_main_thread", "static_pool_worker_thread", "pools_destroyed"],
     "min_observed": {"quick": {"cases_crossing_64_chunks": 50, "chunk_list_growths": 20}, "thorough": {"cases_crossing_64_chunks": 2000}},
     "assumptions": ["object sizes are multiples of 8 (documented precondition)",
@@ -110,11 +111,17 @@ PROPS["C15"] = {
              "splitmix64->sfc64(+20 discards) reference; (ii) pollution differential: a random call program S (40-200 calls over all 36 "
              "sampling functions, random admissible parameters) run after seeding in a fresh thread, in a thread that first ran a random "
              "history H ending half-way through cached state (1-63 coin flips, another gamma shape, another geometric p) and re-seeded, in "
-             "the main thread after a history, and concurrently with 1-15 other threads; every returned bit pattern must be identical; "
+             "the main thread after a history, concurrently with 1-15 other threads, as each of 1-24 trials of cimba_run_experiment and in the "
+             "calling thread after that experiment; every returned bit pattern must be identical; one call in eight takes a parameter from "
+             "the far end of its range (shape 0.002, scale 1e-306: subnormal results); half of the histories end on a gamma shape / geometric "
+             "p that is a close neighbour (1 ulp .. 1e-6 relative) of the one the seeded program uses; "
              "distinct = fingerprint of S's function sequence and H's tail; all cases non-trivial"),
     "headline": ["seeds_vs_reference", "raw_outputs_compared", "pairs_fresh_vs_polluted", "pairs_fresh_vs_main_thread",
-                 "pairs_solo_vs_concurrent", "concurrent_threads", "max_threads_at_once", "S_calls", "H_calls", "flip", "std_gamma", "geometric"],
-    "min_observed": {"quick": {"pairs_fresh_vs_polluted": 1000, "pairs_solo_vs_concurrent": 1000, "seeds_vs_reference": 1000}},
+                 "pairs_solo_vs_concurrent", "pairs_fresh_vs_experiment_trial", "pairs_fresh_vs_caller_after_experiment", "calls_with_extreme_parameters",
+                 "histories_ending_on_a_neighbouring_gamma_shape", "histories_ending_on_a_neighbouring_geometric_p",
+                 "concurrent_threads", "max_threads_at_once", "S_calls", "H_calls", "flip", "std_gamma", "geometric"],
+    "min_observed": {"quick": {"pairs_fresh_vs_polluted": 1000, "pairs_solo_vs_concurrent": 1000, "seeds_vs_reference": 1000, "pairs_fresh_vs_experiment_trial": 1000,
+                               "calls_with_extreme_parameters": 1000, "histories_ending_on_a_neighbouring_gamma_shape": 300}},
     "assumptions": ["seeds are sampled (corner values + random), relying on the generator having no seed-dependent control flow",
                     "TSan build runs the thread-heavy profile; a ThreadSanitizer report in any child is a violation"],
 }
@@ -123,15 +130,20 @@ PROPS["C16"] = {
     "engines": ENG,
     "jobs": [
         dict(name="rng-dist", engine="rngsamp", flavour="rel", profile=0, quick=1, thorough=1, script="rngdist.py"),
+        dict(name="rng-bulk", engine="rngbulk", flavour="rel", profile=0, quick=1, thorough=1, script="rngbulk.py"),
     ],
     "rule": ("one case = one (sampler, parameter set) of a ~170-entry grid covering every distribution of the header incl. the boundary "
              "values named in the property (p=1, p near 0/1, probability vectors summing to one only within 1e-3, shapes 0.05..50, n=1, "
              "min~max, build-time ziggurat and alias tables); N seeded draws (2e5 quick / 2e6 thorough; ziggurat samplers 1e7 / 4e7) "
              "checked draw-by-draw against the support predicate and by KS / chi-square / mean z-test / tail-mass tests against scipy "
-             "reference distributions with the two-stage p<1e-5 then p<1e-7 rule; distinct = distinct parameter sets; all non-trivial"),
-    "headline": ["parameter_sets", "draws", "support_checks", "fit_tests", "stage2_reruns", "worst_p_ppm_std_normal",
+             "reference distributions with the two-stage p<1e-5 then p<1e-7 rule; distinct = distinct parameter sets; all non-trivial. "
+             "Bulk job: the table-driven samplers (std_exponential, exponential, std_normal, normal) drawn 2e9 times each (quick; 3.2e10 "
+             "thorough) on all cores, binned at 1/128 in C and judged here: chi-square fine and coarse, exact binomial tests of the mass in "
+             "the first 1..64 bins (cap of the ziggurat) and beyond 2..20 (tails), two-stage p<1e-6 twice"),
+    "headline": ["parameter_sets", "draws", "support_checks", "fit_tests", "stage2_reruns", "bulk_draws", "bulk_tests", "bulk_worst_p_ppm_std_exponential",
+                 "bulk_worst_p_ppm_std_normal", "worst_p_ppm_std_normal",
                  "worst_p_ppm_std_exponential", "worst_p_ppm_std_beta", "worst_p_ppm_loaded_dice", "worst_p_ppm_geometric"],
-    "min_observed": {"quick": {"parameter_sets": 140, "draws": 20000000}},
+    "min_observed": {"quick": {"parameter_sets": 140, "draws": 20000000, "bulk_draws": 8000000000}},
     "assumptions": ["scipy.stats reference CDF/PMFs are correct", "statistical: false-alarm probability < 1e-9 per parameter set by the two-stage rule",
                     "samplers are driven from the dispatcher context (FP exceptions masked) so NaN results are observed rather than trapped"],
 }
@@ -179,7 +191,7 @@ PROPS["C03"] = {
              "unique message tokens; entry (self, context), entry RSP mod 16, initial MXCSR, exit value/route checked; profile 1 calls "
              "the assembly context switch directly between contexts built by the real cmi_coroutine_context_init (no compiled C frame in "
              "between); distinct = fingerprint of the (kind,target) switch sequence; all cases non-trivial"),
-    "headline": ["probed_switches", "messages_delivered", "switch_sites", "entries_checked", "starts", "restarts", "resumes", "transfers",
+    "headline": ["probed_switches", "messages_delivered", "switch_sites", "entries_checked", "stacks_with_size_not_multiple_of_16", "starts", "restarts", "resumes", "transfers",
                  "yields", "stops", "ends_by_return", "ends_by_exit", "ends_observed_by_starter", "returns_through_trampoline",
                  "max_depth_at_switch", "coroutines"],
     "min_observed": {"quick": {"probed_switches": 200000, "restarts": 500, "ends_observed_by_starter": 1000, "returns_through_trampoline": 1000}},
@@ -202,6 +214,7 @@ PROPS["C17"] = {
              "ignored, all-ones == unweighted, invariance under weight scaling by 2, 10, 1e-3, 2^40, weighted merge == concatenation; "
              "distinct = fingerprint of (profile, class, length, weight class); non-trivial = >=5 non-constant samples (>=4 positive weights)"),
     "headline": ["inputs", "summaries_vs_exact", "merges", "merge_empty_empty", "merge_empty_nonempty", "merge_target_aliases_operand",
+                 "merge_operands_with_an_earlier_life", "merge_targets_holding_older_content", "weighted_merge_operands_with_an_earlier_life", "weighted_merge_targets_holding_older_content",
                  "weighted_means_vs_exact", "zero_weight_relations", "ones_weight_relations", "weight_scale_relations", "weighted_merges",
                  "weighted_merge_with_empty", "ill_conditioned_skipped", "max_err_over_bound_ppm"],
     "min_observed": {"quick": {"summaries_vs_exact": 20000, "merge_empty_empty": 100, "weight_scale_relations": 2000}},
@@ -225,7 +238,7 @@ PROPS["C18"] = {
              "min/max equal data; histogram bins via cmi_dataset_histogram_* equal the definition and sum to n; printed time-weighted "
              "bars proportional to reference weights within one char; ACF[0]=PACF[0]=1, ACF equals its definition, ACF/PACF invariant "
              "under x -> a*x+b, a in {1e-6,1e-3,7,1e6}; distinct = fingerprint (profile, class, size, weight pattern, bins, lags)"),
-    "headline": ["inputs", "dataset_sorts", "ts_sorts", "copies_mutated", "dataset_medians", "ts_medians", "fivenum_reports_parsed",
+    "headline": ["inputs", "dataset_sorts", "ts_sorts", "copies_mutated", "dataset_medians", "ts_medians", "fivenum_reports_parsed", "acf_far_shift_relations",
                  "w_dominant", "w_zero_durations", "unfinalised_series", "size_1_5", "size_1023_1025", "size_2047_2049",
                  "dataset_histograms", "hist_with_out_of_range_samples", "ts_histograms_parsed", "acf_computed", "acf_scale_relations"],
     "min_observed": {"quick": {"ts_medians": 2000, "w_dominant": 500, "size_1_5": 200, "acf_scale_relations": 1000}},
@@ -349,6 +362,8 @@ PROPS["C10"] = {
         + [J("sf-directed-event-waiters-asan", "simfuzz", "asan", 100, 600, 2730, timeout=120),
            J("sf-directed-event-waiters-rel", "simfuzz", "rel", 100, 600, 2730),
            J("sf-directed-first-in-line-leaves-asan", "simfuzz", "asan", 103, 280, 2240, timeout=120),
+           J("sf-directed-long-histories-reported-in-process-asan", "simfuzz", "asan", 102, 6, 60, timeout=300, chunk=1),
+           J("sf-directed-long-histories-reported-in-process-rel", "simfuzz", "rel", 102, 12, 300, timeout=120, chunk=2),
            J("sf-directed-tag-pools-asan", "simfuzz", "asan", 101, 2, 8, timeout=300),
            J("sf-directed-tag-pools-rel", "simfuzz", "rel", 101, 2, 8, timeout=300)]
         + [J("sf-mixed-memcheck", "simfuzz", "rel", 11, 64, 2000, timeout=600, extra=_VG, chunk=4),
